@@ -222,6 +222,89 @@ def r15_6_attrs(prog: Program, rep: Report):
     rep.check(not strict and n > 0, "R15.6", f.qualname, f.loc, f"{n} reads of __module__/__qualname__/__name__ on member annotations are tolerant (getattr with a default)", f"a member annotation's attribute is read unconditionally ({sorted(set(strict))[:2]}): a revisited member that is not a class -- the `...` of a second variadic tuple (tuple[tuple[int, ...], tuple[str, ...]]) -- has no such attribute and construction raises AttributeError", detail="tolerant-attrs")
 
 
+def r15_7_paths(prog: Program, rep: Report):
+    """The path form of R15.7: a constant index into the type arguments of an annotation (`args(t)[0]`, `get_args(t)[-1]`,
+    `t.__args__[0]`) is evaluated only where the arguments are known to be non-empty -- by an earlier operand of the same
+    `and` / `or`, the test of the conditional expression it sits in, a guard of the path, or because the annotation is known to
+    be a form that cannot be written without arguments (Annotated, Union, Optional, ClassVar, Final)."""
+    NEEDS_ARGS = {"typing.Annotated", "typing_extensions.Annotated", "typing.Union", "typing.Optional", "typing.ClassVar", "typing.Final", "types.UnionType"}
+
+    def is_args(x):
+        return T.is_call_to(x, f"{C.INSP}.args", "typing.get_args") or (x[0] == "attr" and x[2] == "__args__")
+
+    def subject(x):
+        return x[2][0] if x[0] == "call" and x[2] else (x[1] if x[0] == "attr" else None)
+
+    def nonempty_fact(cond, pol, X):
+        """Does `cond` having truth value `pol` establish that X is non-empty?"""
+        if cond == X:
+            return pol
+        if cond[0] == "not":
+            return nonempty_fact(cond[1], not pol, X)
+        if cond[0] == "boolop" and cond[1] == "and" and pol:
+            return any(nonempty_fact(o, True, X) for o in cond[2])
+        if cond[0] == "boolop" and cond[1] == "or" and not pol:
+            return any(nonempty_fact(o, False, X) for o in cond[2])
+        if pol and T.contains(cond, lambda y: T.is_call_to(y, "builtins.len") and y[2] == (X,)):
+            return True
+        if pol and cond[0] == "cmp" and cond[1] in ("is", "==") and any(T.is_call_to(side, "typing.get_origin") and side[2][:1] == (subject(X),) for side in cond[2:4]) and any(T.refname(side) in NEEDS_ARGS for side in cond[2:4]):
+            return True
+        if pol and cond[0] == "call" and (T.refname(cond[1]) or "").rsplit(".", 1)[-1] in ("isclassvartype", "isfinal", "isoptionaltype", "isuniontype") and cond[2][:1] == (subject(X),):
+            return True
+        return False
+
+    unprotected, n = [], 0
+
+    def scan(tm, facts, where):
+        nonlocal n
+        if tm[0] == "sub" and is_args(tm[1]) and tm[2][0] == "const" and isinstance(tm[2][1], int) and not isinstance(tm[2][1], bool):
+            n += 1
+            X = tm[1]
+            if not any(nonempty_fact(c, pol, X) for c, pol in facts):
+                unprotected.append(f"{T.show(tm)[:50]} in {where}")
+        if tm[0] == "boolop":
+            acc = list(facts)
+            for o in tm[2]:
+                scan(o, acc, where)
+                acc = acc + [(o, tm[1] == "and")]
+            return
+        if tm[0] == "ifexp":
+            scan(tm[1], facts, where)
+            scan(tm[2], facts + [(tm[1], True)], where)
+            scan(tm[3], facts + [(tm[1], False)], where)
+            return
+        for ch in tm[1:]:
+            if isinstance(ch, tuple):
+                if ch and isinstance(ch[0], str):
+                    scan(ch, facts, where)
+                else:
+                    for c2 in ch:
+                        if isinstance(c2, tuple) and c2 and isinstance(c2[0], str):
+                            scan(c2, facts, where)
+                        elif isinstance(c2, tuple):
+                            for c3 in c2:
+                                if isinstance(c3, tuple) and c3 and isinstance(c3[0], str):
+                                    scan(c3, facts, where)
+
+    for q, f in sorted(prog.functions.items()):
+        if not (q.startswith(C.INSP + ".") or q.startswith("typelib.graph.") or q.startswith("typelib.binding.")):
+            continue
+        try:
+            ps = P.paths_of(prog, f)
+        except Exception:
+            continue
+        for pth in ps:
+            gs = list(pth.guards())
+            # a guard is evaluated under the guards before it; everything else of the path under all of them
+            for i, (g, pol) in enumerate(gs):
+                scan(g, gs[:i], f.name)
+            for tm in pth.all_terms():
+                if any(tm is g for g, _ in gs):
+                    continue
+                scan(tm, gs, f.name)
+    rep.check(not unprotected and n > 0, "R15.7", "typelib", "", f"{n} constant indexings of an annotation's type arguments are evaluated only where the arguments are known to be non-empty", f"type arguments are indexed where they may be empty ({sorted(set(unprotected))[:2]}): for tuple[()], a bare `tuple` or an unparameterised generic the index raises IndexError", detail="args-index-guarded")
+
+
 def r15_7(prog: Program, rep: Report):
     """Contradiction rule: where one boolean expression both tests a sequence for emptiness and indexes it with a constant,
     the test comes first (`not a or a[-1] is ...`).  The other order evaluates the index on the empty sequence."""
@@ -531,6 +614,7 @@ def run(prog: Program, rep: Report, tier: str):
     r15_8(prog, rep)
     rep.rule("R15.7", "emptiness tests precede constant indexing of the same sequence within one boolean expression", floor=1)
     r15_7(prog, rep)
+    r15_7_paths(prog, rep)
     rep.rule("R15.4", "no dispatch predicate raises on a form of the annotation grammar (abstract evaluation, both tables)", floor=22)
     rep.rule("R15.5", "routine constructors unpack no more type arguments than the routed forms have", floor=10)
     rep.rule("R15.6", "graph walk: non-annotation arguments are never members; a non-string reference never reaches the string resolver", floor=2)
